@@ -538,11 +538,11 @@ const rule = "payload kinds nil / value x registered producer (json, xml, yaml, 
 // Props lists the generated checks of C11.
 func Props() []kit.Runner {
 	return []kit.Runner{
-		kit.Prop[Case]{ID: "C11", Name: "bodies", Rule: rule, Quick: 40000, Thorough: 300000,
+		kit.Prop[Case]{ID: "C11", Name: "bodies", Rule: rule, Quick: 40000, Thorough: 250000,
 			Gen: Gen, Check: Check, Classify: Classify},
-		kit.Prop[Case]{ID: "C11", Name: "uploads", Rule: rule + "; this sub-check draws multipart documents with files only", Quick: 25000, Thorough: 200000,
+		kit.Prop[Case]{ID: "C11", Name: "uploads", Rule: rule + "; this sub-check draws multipart documents with files only", Quick: 25000, Thorough: 150000,
 			Gen: GenUploads, Check: Check, Classify: Classify},
-		kit.Prop[Sweep]{ID: "C11", Name: "window", Rule: rule + "; this sub-check draws one upload variant (content prefix and filler, delivery script, declared type or not, name, companions, auth writer) and checks it at every content length 0..1100 (1101 requests per case); non-trivial = the swept range reaches below 512 bytes", Quick: 60, Thorough: 600,
+		kit.Prop[Sweep]{ID: "C11", Name: "window", Rule: rule + "; this sub-check draws one upload variant (content prefix and filler, delivery script, declared type or not, name, companions, auth writer) and checks it at every content length 0..1100 (1101 requests per case); non-trivial = the swept range reaches below 512 bytes", Quick: 60, Thorough: 300,
 			Gen: GenSweep, Check: CheckSweep, Classify: ClassifySweep},
 	}
 }
